@@ -140,7 +140,12 @@ fn rewriters(o: &Opts, out: &mut Out, rng: &mut Rng) {
         };
         // a kind that occurs inside the captured nodes (the rewriter matches) or one that does not (it must not change anything)
         let inner: Vec<N> = captured.iter().flat_map(|n| n.dfs()).filter(|n| n.is_named() && n.kind() != "ERROR").collect();
-        let kind = if rng.chance(3, 4) && !inner.is_empty() { rng.pick(&inner).kind().to_string() } else { x.kind().to_string() };
+        // a capture of several nodes that the rewriters leave untouched must come back whole: for runs, half of the
+        // cases use the root's kind, which occurs nowhere inside a capture
+        let kind = if captured.len() >= 2 && rng.chance(1, 2) {
+          out.count("rewrite:run-with-rewriter-that-matches-nothing");
+          sg.root().kind().to_string()
+        } else if rng.chance(3, 4) && !inner.is_empty() { rng.pick(&inner).kind().to_string() } else { x.kind().to_string() };
         let q = |s: &str| serde_json::to_string(s).unwrap();
         let fix_top = match rng.below(4) {
           0 => "fix: X\n".to_string(),
